@@ -113,10 +113,24 @@ func NewDriver(name string, st kvs.Storage, base time.Time) *Driver {
 	return &Driver{Name: name, St: st, Tok: map[string]int{}, Cur: map[string]string{}, Stale: map[string]string{}, Base: base}
 }
 
+// Special ExpDur entries: absolute instants outside the range an int64 of nanoseconds since 1970 can hold.
+const (
+	ExpNeverSentinel = time.Duration(1<<63 - 1) // 9999-12-31, the usual "never expires" sentinel
+	ExpAncient       = time.Duration(-1 << 63)  // 1000-01-01, expired long ago
+)
+
 func (d *Driver) exp(e int) *time.Time {
 	if d.ExpDur != nil {
 		if e == 0 {
 			return nil
+		}
+		switch d.ExpDur[e] {
+		case ExpNeverSentinel:
+			t := time.Date(9999, 12, 31, 23, 59, 59, 0, time.UTC)
+			return &t
+		case ExpAncient:
+			t := time.Date(1000, 1, 1, 0, 0, 0, 0, time.UTC)
+			return &t
 		}
 		t := d.Base.Add(d.ExpDur[e])
 		return &t
@@ -510,6 +524,9 @@ func (m *Model) CanonKeyAt(d *Driver, keys []string, now time.Time) string {
 				e = "long"
 				if r.Exp.Sub(now) <= 5*time.Second {
 					e = "short"
+				}
+				if r.Exp.Sub(now) > 100*365*24*time.Hour {
+					e = "far" // beyond anything the clock steps reach
 				}
 				if r.Exp.Sub(now) <= time.Millisecond {
 					e = "sub-ms" // a backend may round such a life-time: keep it apart
